@@ -45,14 +45,14 @@ baseline)
   ;;
 sweep)
   for s in ${SWEEP_SEEDS:-1 2 3 4 5 6 7 8}; do
-    printf "%s\n" $PIDS | xargs -P 4 -I{} bash -c "VERIF_SEED=$s ./check {} > $OUT/sweep_{}_$s.log 2>&1; echo \"{} seed=$s rc=\$? \$(grep -c '^VIOLATION' $OUT/sweep_{}_$s.log) violations \$(grep -c '^KNOWN-FINDING' $OUT/sweep_{}_$s.log) known \$(tail -1 $OUT/sweep_{}_$s.log | grep -o '^\[[^]]*\]')\""
+    printf "%s\n" $PIDS | xargs -P ${SWEEP_PAR:-6} -I{} bash -c "VERIF_SEED=$s ./check {} > $OUT/sweep_{}_$s.log 2>&1; echo \"{} seed=$s rc=\$? \$(grep -c '^VIOLATION' $OUT/sweep_{}_$s.log) violations \$(grep -c '^KNOWN-FINDING' $OUT/sweep_{}_$s.log) known \$(tail -1 $OUT/sweep_{}_$s.log | grep -o '^\[[^]]*\]')\""
   done | tee $OUT/sweep.txt
   ;;
 load)
   printf "%s\n" $PIDS | xargs -P 20 -I{} bash -c "./check {} > $OUT/load_{}.log 2>&1; echo \"{} rc=\$? \$(grep -c '^VIOLATION' $OUT/load_{}.log) violations \$(tail -1 $OUT/load_{}.log | grep -o '^\[[^]]*\]')\"" | tee $OUT/load.txt
   ;;
 seeds)
-  ls -d seeded/C??-? | xargs -n1 basename | xargs -P 3 -I{} seeded/recheck.sh {} 2>&1 | tee $OUT/seeds.txt
+  ls -d seeded/C??-? | xargs -n1 basename | xargs -P ${SEEDS_PAR:-4} -I{} seeded/recheck.sh {} 2>&1 | tee $OUT/seeds.txt
   ;;
 docs)
   python3 lib/mkmanifest.py && python3 lib/mkstatus.py
